@@ -97,12 +97,10 @@ def _process_item(kind, head, sub, meta, occ=None):
         # the end anchor may be a minimal prefix of the last statement: extend to the end of that statement (`;` at
         # depth 0), and close any block the fragment opened (so an edit that wraps the statement in an `if` is still extracted whole)
         if not exclusive and not src[a:b].rstrip().endswith((";", "}")):
+            # scan forward to the `;` that ends the last statement.  Closers met at depth 0 close something opened inside the fragment:
+            # `)` / `]` always belong to the expression; a `}` does when an expression continues after it (`})`, `},`, `};`, `}.`, `}?`),
+            # otherwise it ends a block and the fragment's last statement is a tail expression: stop before it
             d = 0
-            for c in m[a:b]:
-                if c in "([":
-                    d += 1
-                elif c in ")]":
-                    d -= 1
             k = b
             while k < f["end"]:
                 c = m[k]
@@ -110,8 +108,14 @@ def _process_item(kind, head, sub, meta, occ=None):
                     d += 1
                 elif c in ")]}":
                     if d == 0:
-                        break
-                    d -= 1
+                        if c == "}":
+                            j2 = k + 1
+                            while j2 < f["end"] and m[j2] in " \t\n":
+                                j2 += 1
+                            if j2 >= f["end"] or m[j2] not in "),;.?":
+                                break
+                    else:
+                        d -= 1
                 elif c == ";" and d == 0:
                     k += 1
                     break
